@@ -62,13 +62,32 @@ Mats == {MkMat(k) : k \in MatIdx} \cup {MkMatOf(t, cf) : t \in Sparse, cf \in Co
 \* thresholding: all integer series over 0..3 of length 5 (as one column next to a
 \* fixed second column), value thresholds 0..3 and quantiles k/4, both types
 ThrData == [1..5 -> 0..3]
-Thr == {[blk |-> "thr", col |-> d, method |-> m[1], qa |-> m[2], qb |-> m[3], type |-> ty]
-          : d \in {dd \in ThrData : dd[1] <= dd[2] /\ dd[2] <= dd[3]}, ty \in {"above", "below"},
-            m \in {<<"value", 0, 1>>, <<"value", 1, 1>>, <<"value", 2, 1>>, <<"value", 3, 2>>,
-                   <<"quantile", 1, 4>>, <<"quantile", 1, 2>>, <<"quantile", 3, 4>>,
-                   <<"quantile", 0, 1>>, <<"quantile", 1, 1>>, <<"quantile", 3, 8>>}}
+Methods == {<<"value", 0, 1>>, <<"value", 1, 1>>, <<"value", 2, 1>>, <<"value", 3, 2>>,
+            <<"quantile", 1, 4>>, <<"quantile", 1, 2>>, <<"quantile", 3, 4>>,
+            <<"quantile", 0, 1>>, <<"quantile", 1, 1>>, <<"quantile", 3, 8>>}
+ThrCols == {dd \in ThrData : dd[1] <= dd[2] /\ dd[2] <= dd[3]}
+Thr == {[blk |-> "thr", col |-> d, method |-> m[1], qa |-> m[2], qb |-> m[3], type |-> ty, dv |-> 0, dt |-> 0]
+          : d \in ThrCols, ty \in {"above", "below"}, m \in Methods}
+\* documented defaults: no threshold value = the median of the variable (quantile 1/2); no type = "above" when
+\* the threshold is at least the median of the variable (quantile >= 1/2), else "below".  The case carries
+\* the EFFECTIVE value / type; dv / dt say which of them the call leaves out.
+Median5(d) == CHOOSE v \in 0..3 : /\ Cardinality({k \in 1..5 : d[k] <= v}) >= 3
+                                  /\ Cardinality({k \in 1..5 : d[k] >= v}) >= 3
+DefType(d, m) == IF m[1] = "value" THEN (IF m[2] >= m[3] * Median5(d) THEN "above" ELSE "below")
+                 ELSE (IF 2 * m[2] >= m[3] THEN "above" ELSE "below")
+ThrDefault ==
+  {[blk |-> "thr", col |-> d, method |-> mm, qa |-> IF mm = "value" THEN Median5(d) ELSE 1,
+    qb |-> IF mm = "value" THEN 1 ELSE 2, type |-> ty, dv |-> 1, dt |-> 0]
+     : d \in ThrCols, ty \in {"above", "below"}, mm \in {"value", "quantile"}}
+  \cup {[blk |-> "thr", col |-> d, method |-> m[1], qa |-> m[2], qb |-> m[3], type |-> DefType(d, m), dv |-> 0, dt |-> 1]
+     : d \in ThrCols, m \in Methods}
+  \cup {[blk |-> "thr", col |-> d, method |-> mm, qa |-> IF mm = "value" THEN Median5(d) ELSE 1,
+    qb |-> IF mm = "value" THEN 1 ELSE 2, type |-> "above", dv |-> 1, dt |-> 1]
+     : d \in ThrCols, mm \in {"value", "quantile"}}
+\* matrices with a series that has no event at all
+ZeroMats == {MkMatOf(<<t[1], Ev10({}), t[3]>>, cf) : t \in Sparse, cf \in Configs}
 
-Cases == SetToSeq(PairAll \cup PairOne) \o SetToSeq(Mats) \o SetToSeq(Thr)
+Cases == SetToSeq(PairAll \cup PairOne) \o SetToSeq(Mats \cup ZeroMats) \o SetToSeq(Thr \cup ThrDefault)
 Numbered == [k \in 1..Len(Cases) |-> [case |-> "e" \o ToString(k)] @@ Cases[k]]
 ASSUME ndJsonSerialize(IOEnv.GEN_OUT, Numbered)
 ASSUME PrintT(<<"GEN", "C16", Len(Cases)>>)
